@@ -57,11 +57,24 @@ class Server:
     _counter = [0]
 
     def start(self):
-        # Ports are derived from the process id: the shards (separate processes) can never pick the same port.
-        # (Asking the kernel for a free port raced between shards: a shard then talked to another shard's server.)
-        for attempt in range(12):
+        # Ports are derived from the process id and reserved with an exclusive lock file that is held as long as
+        # the server lives: two harness processes can never use the same port at the same time.
+        # (Asking the kernel for a free port raced between shards, and so did "probe, then start": the loser's
+        # server failed to bind and its shard then talked to the winner's server.)
+        import fcntl
+        lockdir = os.path.join(os.environ.get('TMPDIR', '/tmp'), 'yalafi-verif-ports')
+        os.makedirs(lockdir, exist_ok=True)
+        for attempt in range(40):
             Server._counter[0] += 1
             port = 15000 + (os.getpid() * 31 + Server._counter[0] * 7) % 45000
+            fd = os.open(os.path.join(lockdir, str(port)), os.O_CREAT | os.O_RDWR, 0o666)
+            try:
+                fcntl.flock(fd, fcntl.LOCK_EX | fcntl.LOCK_NB)
+            except OSError:
+                os.close(fd)
+                continue
+            self.release_port()
+            self.lock_fd = fd
             try:
                 probe = socket.socket()
                 probe.setsockopt(socket.SOL_SOCKET, socket.SO_REUSEADDR, 1)
@@ -107,11 +120,17 @@ class Server:
         with urllib.request.urlopen(req, timeout=60) as r:
             return json.loads(r.read().decode('utf-8'))
 
+    def release_port(self):
+        if getattr(self, 'lock_fd', None) is not None:
+            os.close(self.lock_fd)
+            self.lock_fd = None
+
     def stop(self):
         if self.proc is not None:
             self.proc.kill()
             self.proc.wait()
             self.proc = None
+        self.release_port()
 
 
 def expected_of(src, flagged):
